@@ -4,7 +4,17 @@ import json
 ALL = ["C%02d" % i for i in range(1, 21)]
 OPS_NOTE = "Trusted: Lean kernel; extractor (syntactic); harness generators/comparator; go-openapi/spec JSON loading; swag.ToGoName and jsonreference decoding supplied as tables by the real libraries (external functions of the model)."
 MIX_NOTE = "Trusted: Lean kernel; extractor (syntactic); harness generators/comparator; go-openapi/spec JSON loading. Documents are in the spec model's serialization normal form; the warnings theorem assumes distinct keys per object and well-typed info/contact/license; generator keeps ids unique per document (hypothesis of C18)."
+AN_NOTE = "Trusted: Lean kernel; extractor (syntactic); harness generators/comparator; go-openapi/spec JSON loading; $ref strings pre-normalised by jsonreference (opaque to the model). WF: tokens on the way to indexed positions are not \"\", \".\", \"..\"; header names need no pointer escaping; non-body parameters carry no schema."
 checks = {
+ "C11": dict(cat="proof", technique="Lean 4 theorems: the model of analyzer.go's walk (string keys built with path.Join / jsonpointer.Escape) yields, per kind and for the all-view, a permutation of the (pointer, $ref) pairs of a generic token-space traversal of the document; string lemmas about path.Clean/Join and escaping proved for all strings; differential correspondence on every index incl. private maps",
+   text="Proved in Lean for every well-formed document (unbounded nesting, any names over the alphabet): for each reference kind and for the all view, the analyzer model's (key, $ref) entries are a permutation (multiset equality: none missing, none invented, each with multiplicity) of those read off the document by the Spec traversal over every schema-bearing keyword, parameters, responses, headers, items and path items. The method table and the default-response facts are re-extracted on every run; model, Spec oracle and implementation (all private indexes through a verif-tagged dump, and all public getters) are compared on generated documents.",
+   note=AN_NOTE, ref="§7 C11"),
+ "C12": dict(cat="proof", technique="Lean 4 theorems: schema index = permutation of the document's schemas with name/top-level/allOf flags; pointer keys parse back to their token paths and resolve to that very schema; keys pairwise distinct; differential correspondence + Go-side resolution of every SchemaRef.Ref",
+   text="Proved in Lean: the schema index of the analyzer model is a permutation of all schemas of the document (each once), flagged top-level exactly for definitions entries; for documents whose objects have distinct keys, every key is a JSON pointer that parses back to its token path (escape/unescape/join commute for all strings) and resolves against the document to that very schema, and all keys are pairwise distinct. Each run also resolves every SchemaRef.Ref of the real analyzer against the real document.",
+   note=AN_NOTE, ref="§7 C12"),
+ "C13": dict(cat="proof", technique="Lean 4 theorems: pattern and enum indexes per category and all-views are permutations of the owners found by the Spec traversal; kernel-checked witness that the default-response registration is needed (defect D1, repaired); differential correspondence",
+   text="Proved in Lean for every well-formed document: per category (parameter, header, items, schema) and for the all views, the pattern and enum entries of the analyzer model are a permutation of those declared in the document at parameters (shared, path-level, operation), headers (default, status-code and shared responses), nested items and schemas at any depth. The fact that analyzeDefaultResponse registers header enums is re-extracted on every run; its necessity is a kernel-checked example.",
+   note=AN_NOTE, ref="§7 C13"),
  "C20": dict(cat="proof", technique="Lean 4 theorems about a fuel-indexed model of schema.go (coherence by induction on fuel, $ref transparency, documented rules by case analysis on the schema shape, termination with an explicit fuel bound, divergence without the guard) + regenerated fact (visited guard) + differential correspondence in killable child processes",
    text="Proved in Lean for every root document, schema, external format registry and $ref decoder: every successful classification is coherent; a schema carrying a $ref classifies exactly like its target; objects with properties, allOf and tuples are complex while primitives, arrays, maps and empty objects are not; with the visited-$ref guard (fact re-extracted from schema.go on every run) classification terminates within an explicit fuel bound, and without it an array of itself diverges for every fuel (defect D9, repaired). spec.ExpandSchema is modelled lazily; that equivalence is validated, not proved, by the classify stream (each call in a child process with a 10 s timeout).",
    note="Trusted: Lean kernel; extractor (syntactic); harness generators/comparator; the lazy model of spec.ExpandSchema (validated by differential execution only); strfmt registry and jsonreference decoding supplied as tables by the real libraries.",
